@@ -1,7 +1,9 @@
-"""thorough tier extras: second build configuration is handled by pmhcheck; here fixtures, mutation smoke and
-candidate re-inference are added per property (see DESIGN.md §2.3)."""
+"""thorough tier extras: the second build configuration is handled by pmhcheck; here mutation smoke, benign edits
+and (C12) the compile-fail witness are added per property (see DESIGN.md §2.3)."""
 
 
 def run(ctx, prop, mod, src):
     from . import mutants
-    mutants.run(ctx, prop)
+    if hasattr(mod, "thorough"):
+        mod.thorough(ctx, src)
+    mutants.run(ctx, prop, src)
